@@ -30,8 +30,11 @@ void messageq_init(messageq_t *mq, void *basep, size_t base_len, size_t msg_len)
 
 void *messageq_claim(messageq_t *mq)
 {
-	/* get permission to allocate a message */
-	int num_free = atomic_fetch_sub(&mq->num_free, 1);
+	/* get permission to allocate a message (the counter goes negative when
+	 * several claimers find the queue full at once so it must be read as
+	 * a signed quantity)
+	 */
+	int num_free = (signed char) atomic_fetch_sub(&mq->num_free, 1);
 	if (num_free <= 0) {
 		atomic_fetch_add(&mq->num_free, 1);
 		return NULL;
